@@ -44,6 +44,9 @@ CHECKS = {
  "C13": ("exhaustive enumeration of all pairs (s,z) from an interior-point lattice (3 directions x boundary distances {1,1e-2,1e-4,1e-8} x magnitudes {1,1e-6,1e6}) for NN(1,3), SOC(2..6) on both sides of the sparse-expansion threshold and PSD(1..3) [thorough adds NN6, SOC9, SOC17, PSD4], driving the real cone objects; every identity of the property checked on all basis vectors and two dense vectors",
          "For every lattice pair the real update_scaling/mul_W/mul_Winv/mul_Hs/get_Hs/circ_op/lambda_inv_circ_op/affine_ds/combined_ds_shift/ds_from_dz_offset are executed and compared with the identities W z = W^-T s = lambda, W'W z = s, W^-1 W = I, <Wx,y> = <x,W'y>, block == operator (dense, diagonal and D+uu'-vv' sparse form), and the textbook Jordan algebra written independently in the harness.",
          "relative tolerance 2e-12 amplified by the known conditioning 1/(sqrt(ds dz) sqrt(min(ds,dz))) of the lattice point; PSD on the harness BLAS shims", "DESIGN.md §5 C13"),
+ "C14": ("exhaustive enumeration of all (z, s, mu) triples of an interior-point lattice (magnitudes x boundary fractions {0,+-.5,+-.99,1-1e-6} x skews) and of all vectors over {-2,-.5,0,.5,2}^n for the real Exponential/Power/GenPower cone objects; oracle = the dual barriers written once in the harness on nested dual numbers (exact first, second and mixed third derivatives)",
+         "For every lattice triple the crate's barrier value, stored gradient and Hessian, third-order correction, primal gradient (conjugacy Df*(-g(s)) = -s, <s,g> = -nu), dual scaling (exactly mu*H), primal-dual scaling (symmetric, positive definite, Hs z = s, Hs z~ = s~, or the documented fallback), get_Hs/mul_Hs and the starting point are compared with automatic derivatives of the mathematical definition; membership predicates are compared with textbook definitions on interior, exterior and boundary points.",
+         "tolerances scale with the known relative boundary distance of the lattice point; exponents alpha in {0.1,0.25,0.5} and two alpha-vectors in quick, more in thorough; crate-private calculus reached through hook H2c", "DESIGN.md §5 C14"),
  "C15": ("exhaustive enumeration over the real cone objects of every (interior point, direction, direction magnitude, alpha_max[, backtracking settings]) combination of a lattice: NN/SOC/PSD (exact-distance oracle by bisection on independent margins), Exp/Pow/GenPow (backtracking-trial oracle), composite cones (safety, cap, one-factor tightness), plus margins/scaled_unit_shift/shift-to-interior on arbitrary vectors",
          "Each returned step length is taken and the resulting point judged by textbook membership; it must not exceed alpha_max (nor max_step_fraction for composite cones with nonsymmetric members); for symmetric cones it must equal the exact distance to the boundary found independently (to 1e-7/sqrt(delta)); for nonsymmetric cones it must be a backtracking trial whose predecessor was outside; initialisation shifts must land strictly inside.",
          "directions: zero, radial out/in, dense, boundary-grazing, tangent, +-basis, x magnitudes {1e-3,1,1e3}; PSD via harness BLAS shims; the composite oracle is order-agnostic because the property does not fix the member order (see DESIGN.md note on the inverted symmetric/nonsymmetric pass order)", "DESIGN.md §5 C15"),
